@@ -435,6 +435,15 @@ class MultivariateNormal(TMultivariateNormal, Distribution):
                 new_cov = self.lazy_covariance_matrix[(*rest_idx, last_idx, last_idx)]
             elif last_idx is (...):
                 new_cov = self.lazy_covariance_matrix[rest_idx]
+            elif any(torch.is_tensor(i) for i in rest_idx):
+                # Index tensors on a batch dimension AND the event dimension are paired element by element (as in
+                # mean[idx]): the selected components may belong to different, independent batch members
+                n = self.mean.shape[-1]
+                pos = torch.arange(self.mean.numel(), device=self.mean.device).view(self.mean.shape)[idx]
+                b, i = pos.div(n, rounding_mode="floor"), pos.remainder(n)
+                dense_cov = self.lazy_covariance_matrix.to_dense().expand(*self.mean.shape, n).reshape(-1, n, n)
+                new_cov = dense_cov[b.unsqueeze(-1), i.unsqueeze(-1), i.unsqueeze(-2)]
+                new_cov = new_cov * (b.unsqueeze(-1) == b.unsqueeze(-2))
             else:
                 new_cov = self.lazy_covariance_matrix[(*rest_idx, last_idx, slice(None, None, None))][..., last_idx]
         return self.__class__(mean=new_mean, covariance_matrix=new_cov)
